@@ -33,7 +33,7 @@
    Standard library only; closed under the global context. *)
 From BE Require Import Model.Session Model.Conform Proofs.Kahn Proofs.Session Proofs.Wire Proofs.SessionPassOut Proofs.SessionConform.
 From BE Require Proofs.Play Proofs.Auction.
-From BE Require Import Model.Json Gen.JsonFraming Proofs.C13Cor.
+From BE Require Import Model.Json Model.JsonFramingHand Proofs.C13Cor.
 From Coq Require Import Lia ZArith.
 Local Open Scope string_scope.
 Local Open Scope nat_scope.
